@@ -274,6 +274,33 @@ pub fn corpus() -> Vec<Entry> {
         entry::<Vec<Attribute>>("Vec<Attribute>", "derived"),
         entry::<GenericValue<u64>>("GenericValue<u64>", "derived"),
         entry::<GenericValue<Status>>("GenericValue<Status>", "derived"),
+        // how the type is declared
+        entry::<Priority>("Priority", "derived"),
+        entry::<Gap>("Gap", "derived"),
+        entry::<ReprU8>("ReprU8", "derived"),
+        entry::<ReprI32>("ReprI32", "derived"),
+        entry::<MixedRepr>("MixedRepr", "derived"),
+        entry::<OneUnit>("OneUnit", "derived"),
+        entry::<OneTuple>("OneTuple", "derived"),
+        entry::<OneStruct>("OneStruct", "derived"),
+        entry::<UnitStruct>("UnitStruct", "derived"),
+        entry::<Tuple0>("Tuple0", "derived"),
+        entry::<Tuple5>("Tuple5", "derived"),
+        entry::<Pair<u64, String>>("Pair<u64,String>", "derived"),
+        entry::<Pair<Priority, MixedRepr>>("Pair<Priority,MixedRepr>", "derived"),
+        entry::<Pair<Vec<u8>, Gap>>("Pair<Vec<u8>,Gap>", "derived"),
+        entry::<Generic<Priority>>("Generic<Priority>", "derived"),
+        entry::<Generic<Vec<u8>>>("Generic<Vec<u8>>", "derived"),
+        entry::<GenericTuple<ReprU8>>("GenericTuple<ReprU8>", "derived"),
+        entry::<ConstGen<3>>("ConstGen<3>", "derived"),
+        entry::<ConstGen<0>>("ConstGen<0>", "derived"),
+        entry::<DeclNest>("DeclNest", "derived"),
+        entry::<Vec<Priority>>("Vec<Priority>", "derived"),
+        entry::<Vec<MixedRepr>>("Vec<MixedRepr>", "derived"),
+        entry::<crate::many::Many130>("Many130", "derived"),
+        entry::<crate::many::Many256>("Many256", "derived"),
+        entry::<Vec<crate::many::Many256>>("Vec<Many256>", "derived"),
+        entry::<crate::many257::Many257>("Many257", "derived"),
     ];
     // typed conversions of byte-array values
     v.push(tf_entry::<Vec<i64>, Status>("Vec<i64>::try_from(DbValue::Bytes)"));
